@@ -1,38 +1,44 @@
 -------------------------------- MODULE Dir --------------------------------
 (* The directory pipeline of pygopherd as a state machine                      [C07, C12]  *)
 (*                                                                                          *)
-(* Code abstracted (pinned tree):                                                           *)
+(* Code abstracted (/repo HEAD, i.e. with the fixes 6c16d15, 3517cd4, 5b6ecc2):             *)
 (*   handlers/dir.py   DirHandler.prepare: prep_initfiles (vfs.listdir, ignore pattern      *)
 (*                     searched in selectorbase/name) -> files.sort() -> prep_entries (one  *)
-(*                     HandlerMultiplexer.getHandler + getentry per child)                   *)
-(*   handlers/UMN.py   UMNDirHandler: prep_initfiles_canaddfile diverts dot-files to link   *)
-(*                     processing DURING the enumeration loop, prep_entriesappend applies    *)
-(*                     .cap/<name>, MergeLinkFiles, final stable sort with entrycmp          *)
-(*   handlers/HandlerMultiplexer.py getHandler: stat BEFORE any filter, OSError swallowed,   *)
-(*                     first handler with isrequestsecure() and canhandlerequest() wins,     *)
-(*                     otherwise GopherExceptions.FileNotFound                               *)
-(*   handlers/base.py  isrequestsecure: five forbidden substrings (NUL cannot be in a name)  *)
+(*                     HandlerMultiplexer.getHandler + getentry per child; a child that     *)
+(*                     raises FileNotFound / OSError is skipped)                            *)
+(*   handlers/UMN.py   UMNDirHandler: prep_initfiles_canaddfile keeps dot-names out of the  *)
+(*                     list DURING the enumeration loop and remembers regular dot-files as  *)
+(*                     link files, prep_initfiles reads them (in name order) after the      *)
+(*                     loop, prep_entriesappend applies .cap/<name>, MergeLinkFiles, final  *)
+(*                     stable sort with entrycmp                                            *)
+(*   handlers/HandlerMultiplexer.py getHandler: stat BEFORE any filter, OSError swallowed,  *)
+(*                     first handler with isrequestsecure() and canhandlerequest() wins,    *)
+(*                     otherwise GopherExceptions.FileNotFound                              *)
+(*   handlers/base.py  isrequestsecure: five forbidden substrings (NUL cannot be in a name) *)
 (*                                                                                          *)
 (* One action per environment interaction: ListDir (the OS chooses the enumeration order),  *)
-(* FilterStep (one name; UMN opens link files here), SortNames, ResolveStep (one child:     *)
-(* stat through the handler chain, content sniffing; can fault), MergeLinks, FinalSort,     *)
-(* Finish.  Every action applies a pure per-step operator to the pipeline record `p`; the   *)
-(* same operators, folded, give Pipeline(d, o), used by OrderFree (all enumeration orders)  *)
-(* and by the trace specifications (design level).                                          *)
+(* FilterStep (one name; UMN remembers the link files it meets), ReadLinks (UMN reads the   *)
+(* link files), SortNames, ResolveStep (one child: stat through the handler chain, content  *)
+(* sniffing; can fault), MergeLinks, FinalSort, Finish.  Every action applies a pure        *)
+(* per-step operator to the pipeline record `p`; the same operators, folded, give           *)
+(* Pipeline(d, o), used by OrderFree (all enumeration orders) and by the trace              *)
+(* specifications (design level).                                                           *)
 (*                                                                                          *)
-(* Deviations of the pinned code from the property are modelled and NAMED by constants:     *)
+(* Deviations of the code from the property are modelled and NAMED by constants; FALSE is   *)
+(* the tree as it was pinned (before the fixes), TRUE the tree since:                       *)
 (*   SkipUnservable = FALSE  prep_entries lets FileNotFound / OSError of one child escape   *)
 (*                           (and UMN opens dot-named special files unguarded)       [C12]  *)
-(*   SortedEnum     = FALSE  link files are processed in OS enumeration order        [C07]  *)
-(* The checked configurations use TRUE (the repaired code); the *_pinned configurations are *)
-(* witnesses that TLC finds the defects in the model of the pinned code.                    *)
+(*   SortedLinks    = FALSE  link files are read in OS enumeration order             [C07]  *)
+(* The checked configurations use TRUE; the *_pinned configurations (and the witness runs   *)
+(* of the harnesses) show that TLC finds both defects in the model of the code as it was.   *)
 EXTENDS Text, Integers, FiniteSets
 
 CONSTANTS
     IgnorePatterns,   \* B1: pattern id -> the ignore pattern as DATA: sequence of alternatives
                       \*     [lit : string, any : set of positions of an unescaped '.', end : BOOLEAN ($)]
-    SkipUnservable,   \* TRUE: one unservable child is skipped (repaired); FALSE: it aborts the listing (pinned)
-    SortedEnum,       \* TRUE: enumeration is sorted before the filter loop (repaired); FALSE: OS order (pinned)
+    SkipUnservable,   \* TRUE: one unservable child is skipped (since 6c16d15/3517cd4); FALSE: it aborts the listing
+    SortedLinks,      \* TRUE: the link files met by the filter loop are read in name order afterwards (5b6ecc2);
+                      \* FALSE: in the order the OS enumerated them (before)
     EaExts,           \* B1: sequence of the sidecar extensions of [GopherEntry] eaexts (".abstract", ...)
     DotRuleAll        \* TRUE: literal reading - dot-files are never visible, whatever the handler;
                       \* FALSE: only UMNDirHandler hides dot-files (the documented configuration semantics)
@@ -43,9 +49,9 @@ VARIABLES
             \*    sniff : [mbox, html : BOOLEAN] (content-sniffing handlers in the chain, B1),
             \*    kids : set of Kid]
     raw,    \* the enumeration as the filter loop sees it
-    pc,     \* "start" | "filter" | "sort" | "resolve" | "merge" | "fsort" | "finish" | "done"
+    pc,     \* "start" | "filter" | "links" | "sort" | "resolve" | "merge" | "fsort" | "finish" | "done"
     j,      \* loop index (filter loop over raw, resolve loop over p.files)
-    p       \* pipeline record [files, links, ents, out]
+    p       \* pipeline record [files, lnames, links, ents, out]
 
 dvars == <<d, raw, pc, j, p>>
 
@@ -123,7 +129,7 @@ NTouches(dd, k) ==      \* non-dot child: stat by the multiplexer (+ open by a s
     THEN 2 ELSE 1
 
 NoOut == [kind |-> "none", listing |-> <<>>, culprit |-> ""]
-P0    == [files |-> <<>>, links |-> <<>>, ents |-> <<>>, out |-> NoOut]
+P0    == [files |-> <<>>, lnames |-> <<>>, links |-> <<>>, ents |-> <<>>, out |-> NoOut]
 Abort(pp, kind, n) == [pp EXCEPT !.out = [kind |-> kind, listing |-> <<>>, culprit |-> n]]
 Running(pp) == pp.out.kind = "none"
 
@@ -133,11 +139,22 @@ FilterOne(dd, n, pp) ==
     IF ~Running(pp) THEN pp
     ELSE IF Ignored(dd, n) THEN pp
     ELSE IF dd.handler = "umn" /\ IsDot(n)
-    THEN IF k.kind = "dir" /\ StatOK(k) THEN pp                         \* a "dot dir": ignored
-         ELSE IF LinkReadable(k) THEN [pp EXCEPT !.links = @ \o k.blocks]
-         ELSE IF SkipUnservable THEN pp
-         ELSE Abort(pp, IF k.kind = "fifo" /\ StatOK(k) THEN "hang" ELSE "error", n)
+    THEN IF SkipUnservable
+         THEN \* since 3517cd4: only a regular dot-file (vfs.isfile) is a link file; it is remembered, never listed
+              (IF k.kind = "file" /\ StatOK(k) THEN [pp EXCEPT !.lnames = Append(@, n)] ELSE pp)
+         ELSE \* before: every dot-named non-directory was opened as a link file on the spot
+              (IF k.kind = "dir" /\ StatOK(k) THEN pp
+               ELSE IF LinkReadable(k) THEN [pp EXCEPT !.lnames = Append(@, n)]
+               ELSE Abort(pp, IF k.kind = "fifo" /\ StatOK(k) THEN "hang" ELSE "error", n))
     ELSE [pp EXCEPT !.files = Append(@, n)]
+
+\* UMNDirHandler.prep_initfiles after the loop: read the link files (an unreadable one is skipped)
+RECURSIVE BlocksOf(_, _)
+BlocksOf(dd, ns) == IF ns = <<>> THEN <<>>
+                    ELSE (IF LinkReadable(KidOf(dd, Head(ns))) THEN KidOf(dd, Head(ns)).blocks ELSE <<>>) \o BlocksOf(dd, Tail(ns))
+ReadLinksOp(dd, pp, sl) ==
+    IF ~Running(pp) THEN pp
+    ELSE [pp EXCEPT !.links = BlocksOf(dd, IF sl THEN SortStrSeq(pp.lnames) ELSE pp.lnames)]
 
 \* class of the handler the multiplexer finds for a child ("none": FileNotFound)
 HandlerClass(dd, k) ==
@@ -200,8 +217,6 @@ FinishOp(pp) ==
                              listing |-> [i \in DOMAIN pp.ents |-> [sel |-> pp.ents[i].sel, title |-> pp.ents[i].title]]]]
 
 IsEnumOf(dd, o) == Range(o) = Names(dd) /\ NoDupSeq(o)
-EnumSeenM(o, se) == IF se THEN SortStrSeq(o) ELSE o
-EnumSeen(o) == EnumSeenM(o, SortedEnum)
 
 RECURSIVE FilterFold(_, _, _)
 FilterFold(dd, ns, pp) == IF ns = <<>> THEN pp ELSE FilterFold(dd, Tail(ns), FilterOne(dd, Head(ns), pp))
@@ -210,20 +225,21 @@ ResolveFold(dd, ns, pp) == IF ns = <<>> THEN pp ELSE ResolveFold(dd, Tail(ns), R
 SortNamesOp(pp) == [pp EXCEPT !.files = SortStrSeq(@)]
 
 \* the whole listing request as a function of the directory and the OS enumeration order
-\* (se: whether the enumeration is sorted before the filter loop - repaired - or not - pinned)
-PipelineM(dd, o, se) ==
-    LET p1 == FilterFold(dd, EnumSeenM(o, se), P0)
+\* (sl: link files read in name order - since 5b6ecc2 - or in enumeration order - before)
+PipelineM(dd, o, sl) ==
+    LET p1 == ReadLinksOp(dd, FilterFold(dd, o, P0), sl)
         p2 == SortNamesOp(p1)
         p3 == ResolveFold(dd, p2.files, p2)
     IN FinishOp(FinalSortOp(dd, MergeAll(dd, p3))).out
-Pipeline(dd, o) == PipelineM(dd, o, SortedEnum)
+Pipeline(dd, o) == PipelineM(dd, o, SortedLinks)
 
-\* names whose own path the pipeline touches (stat/open), in order, up to an abort
 \* populating the entry of a regular file looks for its sidecars <name><ext>: a child of that very name is touched
 SidecarTouches(dd, n) ==
     IF HandlerClass(dd, KidOf(dd, n)) \in {"file", "html"}
     THEN SelectSeq([i \in DOMAIN EaExts |-> n \o EaExts[i]], LAMBDA x : x \in Names(dd))
     ELSE <<>>
+\* names whose own path the pipeline touches (stat/open), up to an abort: the dot-names the filter loop
+\* inspects (enumeration order), then the kept names (sorted) with their sidecars
 RECURSIVE TouchFold(_, _, _, _)
 TouchFold(dd, ns, pp, acc) ==
     IF ns = <<>> \/ ~Running(pp) THEN acc
@@ -237,17 +253,16 @@ RECURSIVE FirstOccurrences(_, _)
 FirstOccurrences(s, acc) == IF s = <<>> THEN acc
                             ELSE FirstOccurrences(Tail(s), IF Head(s) \in Range(acc) THEN acc ELSE Append(acc, Head(s)))
 \* the order in which the children are FIRST inspected
-PredictedTouchesM(dd, o, se) ==
-    LET p1 == FilterFold(dd, EnumSeenM(o, se), P0)
+PredictedTouches(dd, o) ==
+    LET p1 == ReadLinksOp(dd, FilterFold(dd, o, P0), SortedLinks)
         p2 == SortNamesOp(p1)
-    IN FirstOccurrences(TouchFold(dd, p2.files, p2, DotTouchFold(dd, EnumSeenM(o, se), P0, <<>>)), <<>>)
-PredictedTouches(dd, o) == PredictedTouchesM(dd, o, SortedEnum)
+    IN FirstOccurrences(TouchFold(dd, p2.files, p2, DotTouchFold(dd, o, P0, <<>>)), <<>>)
 
-\* design-level expectation of the trace specifications: what the code does is what the model of the
-\* repaired code OR the model of the pinned code (link files in enumeration order) predicts
+\* design-level expectation of the trace specifications: what the code does is what the model predicts for
+\* link files read in name order OR in enumeration order (so the same trace spec fits the tree before and after 5b6ecc2)
 Expect(dd, o) ==
-    [touches |-> {PredictedTouchesM(dd, o, se) : se \in BOOLEAN},
-     outs    |-> {[kind |-> PipelineM(dd, o, se).kind, listing |-> PipelineM(dd, o, se).listing] : se \in BOOLEAN}]
+    [touches |-> {PredictedTouches(dd, o)},
+     outs    |-> {[kind |-> PipelineM(dd, o, sl).kind, listing |-> PipelineM(dd, o, sl).listing] : sl \in BOOLEAN}]
 NoExpect == [touches |-> {}, outs |-> {}]
 --------------------------------------------------------------------------------
 (* The state machine.                                                                       *)
@@ -258,13 +273,16 @@ DirInit(dd) == d = dd /\ raw = <<>> /\ pc = "start" /\ j = 0 /\ p = P0
 \* because the directory cache is switched off in every configuration driven here)
 ListDir(o) ==
     /\ pc \in {"start", "done"} /\ IsEnumOf(d, o)
-    /\ raw' = EnumSeen(o) /\ pc' = "filter" /\ j' = 1 /\ p' = P0 /\ UNCHANGED d
+    /\ raw' = o /\ pc' = "filter" /\ j' = 1 /\ p' = P0 /\ UNCHANGED d
 
 FilterStep ==
     /\ pc = "filter"
     /\ IF ~Running(p) THEN pc' = "done" /\ UNCHANGED <<d, raw, j, p>>
        ELSE IF j <= Len(raw) THEN p' = FilterOne(d, raw[j], p) /\ j' = j + 1 /\ UNCHANGED <<d, raw, pc>>
-       ELSE pc' = "sort" /\ UNCHANGED <<d, raw, j, p>>
+       ELSE pc' = "links" /\ UNCHANGED <<d, raw, j, p>>
+
+ReadLinks ==
+    /\ pc = "links" /\ p' = ReadLinksOp(d, p, SortedLinks) /\ pc' = "sort" /\ UNCHANGED <<d, raw, j>>
 
 SortNames ==
     /\ pc = "sort" /\ p' = SortNamesOp(p) /\ pc' = "resolve" /\ j' = 1 /\ UNCHANGED <<d, raw>>
@@ -279,7 +297,7 @@ MergeLinks == pc = "merge" /\ p' = MergeAll(d, p) /\ pc' = "fsort" /\ UNCHANGED 
 FinalSort  == pc = "fsort" /\ p' = FinalSortOp(d, p) /\ pc' = "finish" /\ UNCHANGED <<d, raw, j>>
 Finish     == pc = "finish" /\ p' = FinishOp(p) /\ pc' = "done" /\ UNCHANGED <<d, raw, j>>
 
-DirStep == FilterStep \/ SortNames \/ ResolveStep \/ MergeLinks \/ FinalSort \/ Finish
+DirStep == FilterStep \/ ReadLinks \/ SortNames \/ ResolveStep \/ MergeLinks \/ FinalSort \/ Finish
 --------------------------------------------------------------------------------
 (* The specification of what must be listed.                                                *)
 DotHides(dd) == DotRuleAll \/ dd.handler = "umn"
@@ -326,6 +344,6 @@ RobustClause(dd, out) ==
 \* invariants of the design model
 ModelExact     == pc = "done" /\ p.out.kind = "ok" => ExactClause(d, p.out.listing) = "ok"
 ModelRobust    == pc = "done" => RobustClause(d, p.out) = "ok"
-\* the stepwise actions compute exactly the folded pipeline (EnumSeen is idempotent)
+\* the stepwise actions compute exactly the folded pipeline
 StepsAreFolds  == pc = "done" => p.out = Pipeline(d, raw)
 =============================================================================
